@@ -661,6 +661,7 @@ func (r *runner) finalChecks() {
 	}
 	if r.has("reverts") {
 		r.addV(CheckReverts(sc.Property, views)...)
+		r.addV(checkRevertDates(r, views)...)
 	}
 	if r.has("log-order") {
 		r.addV(CheckLogOrder(sc.Property, commits, views)...)
